@@ -240,6 +240,9 @@ class C16(Check):
         # a short write (the kernel takes only part of the buffer) on each kind of metadata-plane file
         for kind in ("metadata", "manifest", "manifest_list", "hint", "marker"):
             yield {"variant": f"shortwrite:{kind}"}
+        # the publishing rename of each kind of file is refused once (EXDEV)
+        for kind in ("metadata", "manifest", "manifest_list", "data", "hint"):
+            yield {"variant": f"renamefail:{kind}"}
 
     def run_case(self, case: Any, res: CaseResult, tier: str) -> None:
         import datashard as ds
@@ -259,7 +262,7 @@ class C16(Check):
             relevant = [e for e in events if (e.fdpath and e.fdpath.startswith(root)) or any(x.startswith(root) for x in e.paths)
                         or (e.call == "write" and e.data and e.data.startswith(b"MARK "))]
             res.count("trace_events", len(relevant))
-            if case["variant"].startswith(("fault:", "shortwrite:")):
+            if case["variant"].startswith(("fault:", "shortwrite:", "renamefail:")):
                 marks = [e.data.decode(errors="replace").strip() for e in relevant
                          if e.call == "write" and e.data and e.data.startswith(b"MARK ")]
                 if "MARK fault_fired" not in marks:
